@@ -270,6 +270,8 @@ pub struct Produced {
     pub pair: Option<(u64, u64, Option<u64>)>,
     /// noise check of a real encryption: (max |e|, rns consistent)
     pub noise: Option<(u64, bool, u64)>,
+    /// symmetric same-state pair: did both encryptions come out with identical c0?
+    pub same_c0: Option<bool>,
 }
 
 fn seed_words(c: &Ciphertext) -> Option<[u64; 8]> {
@@ -360,7 +362,7 @@ struct FShared {
 fn exec_fop(op: &FOp, sh: &FShared, rng: &mut Prng) -> Produced {
     let w = &sh.world;
     let ctx = &w.ctx;
-    let mut p = Produced { what: format!("{:?}", op), masks: vec![], seeds: vec![], secret: None, pair: None, noise: None };
+    let mut p = Produced { what: format!("{:?}", op), masks: vec![], seeds: vec![], secret: None, pair: None, noise: None, same_c0: None };
     let ks = |k: &KSwitchKeys, p: &mut Produced| {
         for pk in k.data().iter().flatten() {
             p.masks.push(mask_hash(pk.as_ciphertext(), ctx));
@@ -432,6 +434,8 @@ fn exec_fop(op: &FOp, sh: &FShared, rng: &mut Prng) -> Produced {
             let a = w.encryptor.encrypt_symmetric_new_with_u_prng(&pl, &mut BlakeRNG::from_seed(s));
             let b = w.encryptor.encrypt_symmetric_new_with_u_prng(&pl, &mut BlakeRNG::from_seed(s));
             p.pair = Some((mask_hash(&a, ctx), mask_hash(&b, ctx), None));
+            // same mask, but the noise must still be fresh: identical c0 means no randomness was drawn
+            p.same_c0 = Some(a.poly(0) == b.poly(0));
             // the pair shares its mask by construction; it still must differ from everything else
             p.masks.push(mask_hash(&a, ctx));
         }
@@ -510,6 +514,13 @@ fn judge_fresh(all: &[(usize, usize, Produced)], scheme: &str) -> Vec<(String, S
                     }
                 }
             }
+        }
+        if p.same_c0 == Some(true) {
+            bad.push((
+                format!("freshness/{}/same-state-no-fresh-noise", scheme),
+                "same-state-no-fresh-noise".into(),
+                format!("{}: two symmetric encryptions handed generators in the same explicit state are bit-identical (the noise was not drawn freshly)", p.what),
+            ));
         }
         if let Some((m, cons, bound)) = p.noise {
             if m > bound || !cons {
